@@ -43,6 +43,12 @@ func (r Req) Mutating() bool { return r.Op == "PUT" || r.Op == "DELETE" }
 // ErrInjected is the transport error handed out by fault plans.
 var ErrInjected = errors.New("verif: injected transport error")
 
+// ErrNoSuchKey is the well-formed "no such object" answer, for interceptors that
+// model an object whose PUT was acknowledged but is not visible yet.
+func ErrNoSuchKey() error {
+	return awserr.New(s3.ErrCodeNoSuchKey, "The specified key does not exist.", nil)
+}
+
 type Store struct {
 	mu      sync.Mutex
 	objs    map[string][]byte
